@@ -320,6 +320,57 @@ namespace plan
         t += s->text + "\n";
       return t;
     }
+    // another equivalent formulation: the goal / fact / disjunction statements in the opposite order (declarations first, constraints
+    // last, as in the original). Empty when fewer than two such statements, or when one of them mentions a name another one declares
+    std::string variant_reversed_formulas() const
+    {
+      std::vector<const Stmt *> fs;
+      for (auto &s : m.stmts)
+        if (s.k == Stmt::FORMULA || s.k == Stmt::DISJ)
+          fs.push_back(&s);
+      if (fs.size() < 2)
+        return std::string();
+      // names declared by these statements: `goal g0 = ...`, `fact u1 = ...` (also inside disjuncts)
+      std::vector<std::pair<std::string, const Stmt *>> names;
+      for (auto *st : fs)
+      {
+        const std::string &t = st->text;
+        for (size_t i = 0; i + 5 < t.size(); ++i)
+          if ((t.compare(i, 5, "goal ") == 0 || t.compare(i, 5, "fact ") == 0) && (i == 0 || !isalnum(static_cast<unsigned char>(t[i - 1]))))
+          {
+            size_t a = i + 5, e = a;
+            while (e < t.size() && (isalnum(static_cast<unsigned char>(t[e])) || t[e] == '_'))
+              ++e;
+            if (e > a)
+              names.push_back({t.substr(a, e - a), st});
+          }
+      }
+      for (auto *st : fs)
+        for (auto &nm : names)
+          if (nm.second != st)
+          {
+            size_t at = 0;
+            while ((at = st->text.find(nm.first, at)) != std::string::npos)
+            {
+              const bool lb = at == 0 || !(isalnum(static_cast<unsigned char>(st->text[at - 1])) || st->text[at - 1] == '_');
+              const size_t e = at + nm.first.size();
+              const bool rb = e >= st->text.size() || !(isalnum(static_cast<unsigned char>(st->text[e])) || st->text[e] == '_');
+              if (lb && rb)
+                return std::string();
+              at = e;
+            }
+          }
+      std::string t = m.decl_text.empty() ? std::string() : m.decl_text.back();
+      for (auto &s : m.stmts)
+        if (s.k == Stmt::DECL)
+          t += s.text + "\n";
+      for (size_t i = fs.size(); i > 0; --i)
+        t += fs[i - 1]->text + "\n";
+      for (auto &s : m.stmts)
+        if (s.k == Stmt::ASSERT)
+          t += s.text + "\n";
+      return t;
+    }
     // another equivalent formulation: every disjunction statement gets one more disjunct that can never be chosen (a goal
     // whose rule is `false`); declarations first, everything else in the original order. Empty when there is no disjunction
     std::string variant_with_dead_disjunct() const
